@@ -1,14 +1,27 @@
 package c03
 
-// executed_is_voted on the REAL keeper: four bonded oracles of equal power vote on an event nonce through the real
-// message server (`Claim` -> `Attest` -> `TryAttestation`); two vote for claim M, the third — whose vote crosses the
-// 66 % threshold — submits a claim D that differs from M in an effect-relevant field.  Monitor (the property itself):
-// whenever an attestation becomes observed, the claim object that was executed (the crossing voter's) has the same
-// effect-relevant fields as the claim of every voter tallied in that attestation.
+// executed_is_voted on the REAL keeper: bonded oracles vote on an event nonce through the real message server
+// (`Claim` -> `claimLogicCheck` -> `Attest` -> `TryAttestation` -> `AttestationHandler`).  Most voters submit claim M, one or
+// two submit a claim D that differs from M in one effect-relevant part (a field, a spelling, a boundary value, an order),
+// in a random vote order and with several power distributions, so that every position of the deviating vote relative to
+// the threshold-crossing vote occurs.
+//
+// Monitors (the property itself, on real state): whenever an attestation becomes observed, the claim object that was
+// executed (the crossing voter's) has the same effect-relevant fields as the claim of EVERY voter tallied in that
+// attestation, as the claim recorded in the attestation, and as what the handler stored (pending execute claim, last
+// observed oracle set, bridge token registration).
+//
+// Correspondence: every vote is also an op line of the Lean attestation model (Model/C03Attest.lean: `Attest` /
+// `TryAttestation` over the generated paths); the compared observation is the result kind, the last observed nonce, the
+// attestation table of the nonce (hash, voters in order, observed) and the hash of the executed claim.
+//
+// Every colliding pair the pure search found is replayed here as (M, D).
 
 import (
 	"encoding/hex"
 	"fmt"
+	"sort"
+	"strings"
 	"testing"
 
 	sdkmath "cosmossdk.io/math"
@@ -16,37 +29,50 @@ import (
 	sdk "github.com/cosmos/cosmos-sdk/types"
 
 	"github.com/functionx/fx-core/v8/testutil/helpers"
+	fxtypes "github.com/functionx/fx-core/v8/types"
 	crosschainkeeper "github.com/functionx/fx-core/v8/x/crosschain/keeper"
 	ct "github.com/functionx/fx-core/v8/x/crosschain/types"
 
 	"fxverif/harness/hx"
 )
 
-type scenario struct {
-	what string
-	kind *kind
-	m, d func(nonce uint64, bridger string) claim
+const keeperChain = "eth"
+
+type keeperEnv struct {
+	t        *testing.T
+	r        *run
+	s        *hx.Suite
+	k        crosschainkeeper.Keeper
+	srv      ct.MsgServer
+	oracles  []sdk.AccAddress
+	bridgers []sdk.AccAddress
+	exts     []string
+	powers   []int64
+	index    map[string]int // oracle address -> index
 }
 
-func keeperScenarios(t *testing.T, r *run, ks map[string]*kind) {
-	out := r.out
-	const chain = "eth"
-	const nOracle = 4
-	s := hx.NewSuite(t, nOracle)
-	k := s.App.EthKeeper
-	srv := crosschainkeeper.NewMsgServerImpl(k)
+var powerProfiles = [][]int64{{10, 10, 10, 10}, {40, 30, 20, 10}, {34, 33, 32, 10}, {66, 20, 10, 10}, {25, 25, 25, 25, 25}, {50, 16, 16, 16, 10}}
+
+func newKeeperEnv(t *testing.T, r *run, profile []int64) *keeperEnv {
+	n := len(profile)
+	s := hx.NewSuite(t, n)
+	e := &keeperEnv{t: t, r: r, s: s, k: s.App.EthKeeper, index: map[string]int{}, powers: profile}
+	e.srv = crosschainkeeper.NewMsgServerImpl(e.k)
 	amt := sdkmath.NewInt(300 * 1e3).MulRaw(1e18)
-	oracles := s.AddTestAddress(nOracle, ct.NewDelegateAmount(amt))
-	bridgers := s.AddTestAddress(nOracle, ct.NewDelegateAmount(amt))
+	e.oracles = s.AddTestAddress(n, ct.NewDelegateAmount(amt))
+	e.bridgers = s.AddTestAddress(n, ct.NewDelegateAmount(amt))
 	po := &ct.ProposalOracle{}
-	for _, o := range oracles {
+	for _, o := range e.oracles {
 		po.Oracles = append(po.Oracles, o.String())
 	}
-	k.SetProposalOracle(s.Ctx, po)
-	for i := 0; i < nOracle; i++ {
-		_, err := srv.BondedOracle(s.Ctx, &ct.MsgBondedOracle{OracleAddress: oracles[i].String(), BridgerAddress: bridgers[i].String(),
-			ExternalAddress: helpers.GenExternalAddr(chain), ValidatorAddress: s.ValAddr[i].String(),
-			DelegateAmount: ct.NewDelegateAmount(sdkmath.NewInt(10 * 1e3).MulRaw(1e18)), ChainName: chain})
+	e.k.SetProposalOracle(s.Ctx, po)
+	for i := 0; i < n; i++ {
+		ext := helpers.GenExternalAddr(keeperChain)
+		e.exts = append(e.exts, ext)
+		e.index[e.oracles[i].String()] = i
+		_, err := e.srv.BondedOracle(s.Ctx, &ct.MsgBondedOracle{OracleAddress: e.oracles[i].String(), BridgerAddress: e.bridgers[i].String(),
+			ExternalAddress: ext, ValidatorAddress: s.ValAddr[i].String(),
+			DelegateAmount: ct.NewDelegateAmount(sdkmath.NewInt(profile[i] * 1e3).MulRaw(1e18)), ChainName: keeperChain})
 		if err != nil {
 			t.Fatalf("bond oracle %d: %v", i, err)
 		}
@@ -55,83 +81,473 @@ func keeperScenarios(t *testing.T, r *run, ks map[string]*kind) {
 		t.Fatalf("end block: %v", err)
 	}
 	s.Ctx = s.Ctx.WithBlockHeight(s.Ctx.BlockHeight() + 1)
+	return e
+}
 
-	ethA, ethB := helpers.GenExternalAddr(chain), helpers.GenExternalAddr(chain)
-	tok := helpers.GenExternalAddr(chain)
-	call := func(memo, origin string) func(uint64, string) claim {
-		return func(n uint64, b string) claim {
-			return &ct.MsgBridgeCallClaim{ChainName: chain, BridgerAddress: b, EventNonce: n, BlockHeight: 1000 + n, Sender: ethA, Refund: ethA, To: ethA,
-				TokenContracts: []string{}, Amounts: []sdkmath.Int{}, Data: "", Value: sdkmath.ZeroInt(), Memo: memo, TxOrigin: origin}
-		}
-	}
-	token := func(name, symbol string) func(uint64, string) claim {
-		return func(n uint64, b string) claim {
-			return &ct.MsgBridgeTokenClaim{EventNonce: n, BlockHeight: 1000 + n, TokenContract: tok, Name: name, Symbol: symbol, Decimals: 18, BridgerAddress: b, ChainName: chain}
-		}
-	}
-	result := func(origin string) func(uint64, string) claim {
-		return func(n uint64, b string) claim {
-			return &ct.MsgBridgeCallResultClaim{ChainName: chain, BridgerAddress: b, EventNonce: n, BlockHeight: 1000 + n, Nonce: 77, TxOrigin: origin, Success: true}
-		}
-	}
-	send := func(amount int64) func(uint64, string) claim {
-		return func(n uint64, b string) claim {
-			return &ct.MsgSendToFxClaim{EventNonce: n, BlockHeight: 1000 + n, TokenContract: tok, Amount: sdkmath.NewInt(amount), Sender: ethA,
-				Receiver: sdk.AccAddress(oracles[0]).String(), BridgerAddress: b, ChainName: chain}
-		}
-	}
-	scs := []scenario{
-		{"MsgBridgeTokenClaim Name/Symbol split", ks["bt"], token("A", "FX/FX"), token("A/FX", "FX")},
-		{"MsgBridgeCallClaim Memo", ks["bc"], call("", ""+hex.EncodeToString(ct.MemoSendCallTo.Bytes())+""), nil},
-		{"MsgBridgeCallClaim TxOrigin", ks["bc"], call("", ethA), call("", ethB)},
-		{"MsgBridgeCallResultClaim TxOrigin", ks["bcr"], result(ethA), result(ethB)},
-		{"MsgSendToFxClaim Amount", ks["stf"], send(5), send(6)},
-	}
-	// the Memo scenario: M has the empty memo, D the send-call-to memo (same origin)
-	scs[1].m, scs[1].d = call("", ethA), call(hex.EncodeToString(ct.MemoSendCallTo.Bytes()), ethA)
+func setBridger(c claim, b string) {
+	elem(c).FieldByName("BridgerAddress").SetString(b)
+}
 
-	nonce := k.GetLastObservedEventNonce(s.Ctx)
-	for _, sc := range scs {
-		nonce++
-		votes := map[string]claim{} // oracle address -> the claim it submitted for this nonce
-		var replay []string
-		observed := false
-		// oracle 0, 1: M; oracle 2: D (crosses 3/4 if tallied together); oracle 3: M
-		order := []func(uint64, string) claim{sc.m, sc.m, sc.d, sc.m}
-		for i := 0; i < nOracle; i++ {
-			c := order[i](nonce, bridgers[i].String())
-			if err := c.ValidateBasic(); err != nil {
-				t.Fatalf("%s: scenario claim invalid: %v", sc.what, err)
+// attTable: attestations of one event nonce on the real store: hash -> (voter indices, observed)
+func (e *keeperEnv) attTable(ctx sdk.Context, nonce uint64) string {
+	var rows []string
+	e.k.IterateAttestationAndClaim(ctx, func(att *ct.Attestation, c ct.ExternalClaim) bool {
+		if c.GetEventNonce() != nonce {
+			return false
+		}
+		var vs []string
+		for _, v := range att.Votes {
+			if i, ok := e.index[v]; ok {
+				vs = append(vs, fmt.Sprint(i))
+			} else {
+				vs = append(vs, "?")
 			}
-			votes[oracles[i].String()] = c
-			replay = append(replay, fmt.Sprintf("# oracle %d votes nonce %d: %+v", i, nonce, c))
-			anyClaim, _ := codectypes.NewAnyWithValue(c)
-			res := hx.Try(func() error {
-				_, err := srv.Claim(s.Ctx, &ct.MsgClaim{ChainName: chain, BridgerAddress: bridgers[i].String(), Claim: anyClaim})
-				return err
-			})
-			out.Count("keeper:vote:" + res[:2])
-			att := k.GetAttestation(s.Ctx, nonce, c.ClaimHash())
-			if att == nil || !att.Observed || observed {
-				continue
-			}
-			observed = true
-			out.Nontrivial("keeper:" + sc.what)
-			// c is the claim object TryAttestation executed
+		}
+		rows = append(rows, fmt.Sprintf("%s:%s:%s", hex.EncodeToString(c.ClaimHash())[:16], strings.Join(vs, "."), b01(att.Observed)))
+		return false
+	})
+	sort.Strings(rows)
+	if len(rows) == 0 {
+		return "-"
+	}
+	return strings.Join(rows, ",")
+}
+
+// handlerPanics: does the real AttestationHandler panic on this claim in this state (environment input of the model:
+// the handlers are not modelled)
+func (e *keeperEnv) handlerPanics(ctx sdk.Context, c claim) (res bool, err error) {
+	defer func() {
+		if recover() != nil {
+			res = true
+		}
+	}()
+	cctx, _ := ctx.CacheContext()
+	err = e.k.AttestationHandler(cctx, c)
+	return false, err
+}
+
+// stored: what the handler left behind for the executed nonce, as an effect text comparable with kind.effect
+func (e *keeperEnv) stored(ctx sdk.Context, k *kind, executed claim) (string, bool) {
+	switch m := executed.(type) {
+	case *ct.MsgSendToFxClaim, *ct.MsgBridgeCallClaim, *ct.MsgBridgeCallResultClaim:
+		p, found := e.k.GetPendingExecuteClaim(ctx, executed.GetEventNonce())
+		if !found {
+			return "no pending execute claim", true
+		}
+		if fmt.Sprintf("%T", p) != fmt.Sprintf("%T", executed) {
+			return fmt.Sprintf("pending claim of type %T", p), true
+		}
+		return k.effect(p), true
+	case *ct.MsgOracleSetUpdatedClaim:
+		os := e.k.GetLastObservedOracleSet(ctx)
+		if os == nil {
+			return "no last observed oracle set", true
+		}
+		cp := k.clone(executed).(*ct.MsgOracleSetUpdatedClaim)
+		cp.OracleSetNonce, cp.Members = os.Nonce, os.Members
+		return k.effect(cp), true
+	case *ct.MsgBridgeTokenClaim:
+		d, found := e.k.GetBridgeDenomByContract(ctx, m.TokenContract)
+		if !found {
+			return "", false // handler returned an error (token exists, decimals mismatch): nothing stored
+		}
+		// the registration depends on Symbol only through `== FX`
+		isFX := d == fxtypes.DefaultDenom
+		if isFX != (m.Symbol == fxtypes.DefaultDenom) {
+			return "bridge token registered as " + d, true
+		}
+		return k.effect(executed), true
+	}
+	return "", false
+}
+
+// replay: voters submit `claims[i]` (nil = does not vote) in `order`; returns whether an observation happened
+func (e *keeperEnv) replay(k *kind, what string, claims []claim, order []int) {
+	r, out := e.r, e.r.out
+	ctx, _ := e.s.Ctx.CacheContext() // every replay starts from the same state and is discarded
+	var first claim
+	for _, c := range claims {
+		if c != nil {
+			first = c
+			break
+		}
+	}
+	if first == nil {
+		return
+	}
+	nonce := first.GetEventNonce()
+	if nonce == 0 {
+		return
+	}
+	// environment: the chain has observed everything up to nonce-1 and so has every oracle
+	e.k.SetLastObservedEventNonce(ctx, nonce-1)
+	for _, o := range e.oracles {
+		e.k.SetLastEventNonceByOracle(ctx, o, nonce-1)
+	}
+	if m, ok := first.(*ct.MsgSendToExternalClaim); ok && m.BatchNonce%5 != 0 {
+		// an outgoing batch the claim can confirm
+		_ = e.k.StoreBatch(ctx, &ct.OutgoingTxBatch{BatchNonce: m.BatchNonce, TokenContract: m.TokenContract, Block: uint64(ctx.BlockHeight())})
+	}
+	out.Reset("keeper")
+	var ps []string
+	total := e.k.GetLastTotalPower(ctx)
+	for i := range e.oracles {
+		o, _ := e.k.GetOracle(ctx, e.oracles[i])
+		ps = append(ps, o.GetPower().String()+":"+hx.HexS(e.exts[i]))
+	}
+	out.Emit(fmt.Sprintf("cfg %s %s", total.String(), strings.Join(ps, " ")), "ok")
+	out.Emit(fmt.Sprintf("last %d", nonce-1), "ok")
+	replay := []string{fmt.Sprintf("# real keeper (%s), %d oracles of power %v, last observed nonce %d; votes in order:", keeperChain, len(e.oracles), e.powers, nonce-1)}
+	votes := map[int]claim{}
+	observedBefore := map[string]bool{}
+	for _, i := range order {
+		if claims[i] == nil {
+			continue
+		}
+		c := k.clone(claims[i])
+		setBridger(c, e.bridgers[i].String())
+		votes[i] = c
+		hp, herr := e.handlerPanics(ctx, c)
+		line := fmt.Sprintf("vote %d %s %s %s", i, b01(hp), k.line(c), ckBit(k, c))
+		replay = append(replay, line, fmt.Sprintf("#   oracle %d: %+v", i, c))
+		anyClaim, _ := codectypes.NewAnyWithValue(c)
+		cctx, commit := ctx.CacheContext()
+		res := hx.Try(func() error {
+			_, err := e.srv.Claim(cctx, &ct.MsgClaim{ChainName: keeperChain, BridgerAddress: e.bridgers[i].String(), Claim: anyClaim})
+			return err
+		})
+		kindR := "ok"
+		switch {
+		case res == "ok":
+			commit()
+		case strings.HasPrefix(res, "panic:"):
+			kindR = "panic"
+		case strings.Contains(res, ct.ErrNonContiguousEventNonce.Error()):
+			kindR = "err:non-contiguous"
+		case strings.Contains(res, "external address"):
+			kindR = "err:logic-check"
+		default:
+			kindR = "err:other"
+		}
+		out.Count("keeper:vote:" + kindR)
+		lastObs := e.k.GetLastObservedEventNonce(ctx)
+		execHash := "-"
+		// did this vote make an attestation observed?
+		var att *ct.Attestation
+		if kindR == "ok" {
+			att = e.k.GetAttestation(ctx, c.GetEventNonce(), c.ClaimHash())
+		}
+		key := fmt.Sprintf("%d/%x", c.GetEventNonce(), c.ClaimHash())
+		if att != nil && att.Observed && !observedBefore[key] {
+			observedBefore[key] = true
+			execHash = hex.EncodeToString(c.ClaimHash())[:16]
+			out.Nontrivial("keeper:observed:" + k.tag + ":" + what)
+			out.Count(fmt.Sprintf("keeper:observed-with-%d-votes", len(att.Votes)))
+			// (1) every tallied vote agrees with the executed claim
 			for _, v := range att.Votes {
-				vc, ok := votes[v]
-				if !ok {
+				vi, ok := e.index[v]
+				if !ok || votes[vi] == nil {
 					continue
 				}
-				if sc.kind.effect(vc) != sc.kind.effect(c) {
-					replay = append(replay, fmt.Sprintf("# attestation %x observed with votes %v; executed claim = oracle %d's", c.ClaimHash(), att.Votes, i))
-					r.violate(fmt.Sprintf("real keeper: executed claim differs from a tallied vote in %s", sc.what), replay)
+				if k.effect(votes[vi]) != k.effect(c) {
+					rp := append(append([]string{}, replay...), fmt.Sprintf("# attestation %x observed with votes of oracles %v; executed claim = oracle %d's; oracle %d voted for a different event", c.ClaimHash(), att.Votes, i, vi))
+					r.violate(fmt.Sprintf("real keeper: executed claim differs from a tallied vote in %s: %s", k.name, what), rp)
 					break
 				}
 			}
+			// (2) the claim recorded in the attestation (first voter's) agrees too
+			if rec, err := ct.UnpackAttestationClaim(e.s.App.AppCodec(), att); err == nil && k.effect(rec) != k.effect(c) {
+				r.violate(fmt.Sprintf("real keeper: claim recorded in the observed attestation differs from the executed one in %s: %s", k.name, what), replay)
+			}
+			// (3) what the handler stored is the executed claim
+			if herr != nil {
+				out.Count("keeper:handler-error")
+			} else if got, ok := e.stored(ctx, k, c); ok && got != k.effect(c) {
+				rp := append(append([]string{}, replay...), "# stored: "+got, "# executed: "+k.effect(c))
+				r.violate(fmt.Sprintf("real keeper: state written by the handler differs from the executed claim in %s: %s", k.name, what), rp)
+			}
 		}
-		if !observed {
-			out.Count("keeper:not-observed")
+		out.Emit(line, fmt.Sprintf("%s last=%d exec=%s pend=%s atts=%s", kindR, lastObs, execHash, e.pendOf(ctx, nonce), e.attTable(ctx, nonce)))
+	}
+	// (5) tallied together only if they agree: in the final table of the nonce, the voters of every attestation (observed
+	// or not) submitted claims with one and the same effect
+	e.k.IterateAttestationAndClaim(ctx, func(att *ct.Attestation, rec ct.ExternalClaim) bool {
+		if rec.GetEventNonce() != nonce {
+			return false
+		}
+		var firstV claim
+		for _, v := range att.Votes {
+			vi, ok := e.index[v]
+			if !ok || votes[vi] == nil {
+				continue
+			}
+			if firstV == nil {
+				firstV = votes[vi]
+			} else if k.effect(votes[vi]) != k.effect(firstV) {
+				rp := append(append([]string{}, replay...), fmt.Sprintf("# attestation %x holds the votes of oracles %v, who voted for different events", rec.ClaimHash(), att.Votes))
+				r.violate(fmt.Sprintf("real keeper: votes for different events are tallied in one attestation in %s: %s", k.name, what), rp)
+				return true
+			}
+		}
+		return false
+	})
+	// deferred execution: ExecuteClaim runs the stored copy (whether the real handler succeeds is an input of the model)
+	ran := 0
+	for round := 0; round < 2; round++ {
+		stored, had := e.k.GetPendingExecuteClaim(ctx, nonce)
+		fails := false
+		if had {
+			cctx, _ := ctx.CacheContext()
+			fails = hx.Try(func() error { return e.k.ExecuteClaim(cctx, nonce) }) != "ok"
+		} else if round == 1 {
+			break
+		}
+		cctx, commit := ctx.CacheContext()
+		res := hx.Try(func() error { return e.k.ExecuteClaim(cctx, nonce) })
+		kindR := "err"
+		switch {
+		case !had:
+			kindR = "none"
+		case res == "ok":
+			kindR = "ok"
+			commit()
+			ran++
+			// (4) the claim that was run from the store is the executed (voted) one: checked against every vote cast for it
+			for i, v := range votes {
+				if hashOf(v) == hashOf(stored) && k.effect(v) != k.effect(stored) {
+					r.violate(fmt.Sprintf("real keeper: claim run by ExecuteClaim differs from the vote of oracle %d tallied for it in %s: %s", i, k.name, what), replay)
+				}
+			}
+		}
+		out.Count("keeper:execute-claim:" + kindR)
+		out.Emit(fmt.Sprintf("run %d %s", nonce, b01(fails)), fmt.Sprintf("%s pend=%s ran=%d", kindR, e.pendOf(ctx, nonce), ran))
+	}
+}
+
+func (e *keeperEnv) pendOf(ctx sdk.Context, nonce uint64) string {
+	if c, ok := e.k.GetPendingExecuteClaim(ctx, nonce); ok {
+		return hex.EncodeToString(c.ClaimHash())[:16]
+	}
+	return "-"
+}
+
+// renameMembers maps the distinct member addresses of two oracle-set claims, in order of first appearance, onto the
+// registered external addresses
+func (e *keeperEnv) renameMembers(k *kind, a, b claim, mustCollide bool) (claim, claim, bool) {
+	ma, ok1 := k.clone(a).(*ct.MsgOracleSetUpdatedClaim)
+	mb, ok2 := k.clone(b).(*ct.MsgOracleSetUpdatedClaim)
+	if !ok1 || !ok2 {
+		return nil, nil, false
+	}
+	names := map[string]string{}
+	for _, ms := range [][]ct.BridgeValidator{ma.Members, mb.Members} {
+		for i := range ms {
+			if _, ok := names[ms[i].ExternalAddress]; !ok {
+				names[ms[i].ExternalAddress] = e.exts[len(names)%len(e.exts)]
+			}
+			ms[i].ExternalAddress = names[ms[i].ExternalAddress]
 		}
 	}
+	ma.ChainName, mb.ChainName = keeperChain, keeperChain
+	if verdict(ma) != "ok" || verdict(mb) != "ok" || (mustCollide && hashOf(ma) != hashOf(mb)) || k.effect(ma) == k.effect(mb) {
+		return nil, nil, false
+	}
+	return ma, mb, true
+}
+
+// orders: vote orders for n oracles with the deviators at every position
+func orders(g *gen, n int) []int {
+	return g.rng.Perm(n)
+}
+
+func keeperRun(t *testing.T, r *run, g *gen, ks map[string]*kind) {
+	profile := powerProfiles[int(hx.Seed()+3)%len(powerProfiles)]
+	if hx.Seed() < 0 {
+		profile = powerProfiles[0]
+	}
+	e := newKeeperEnv(t, r, profile)
+	n := len(e.oracles)
+	r.out.Stats.Extra["keeper_power_profile"] = fmt.Sprint(profile)
+	kg := &gen{rng: g.rng, pool: e.exts}
+
+	// disagree: M from everyone except the deviators, who vote D
+	disagree := func(k *kind, what string, m, d claim, deviators []int, order []int) {
+		claims := make([]claim, n)
+		for i := range claims {
+			claims[i] = m
+		}
+		for _, i := range deviators {
+			claims[i] = d
+		}
+		e.replay(k, what, claims, order)
+	}
+	allPositions := func(k *kind, what string, m, d claim) {
+		// the single deviator at every position of the vote order, both ways round; then two deviators
+		for pos := 0; pos < n; pos++ {
+			order := orders(g, n)
+			disagree(k, what, m, d, []int{order[pos]}, order)
+		}
+		order := orders(g, n)
+		disagree(k, what, d, m, []int{order[n-2]}, order)
+		disagree(k, what, m, d, []int{order[0], order[n-1]}, orders(g, n))
+	}
+
+	// 1. every collision the pure search found (none on a tree where the property holds); when the claims name oracle-set
+	// members, also with the member addresses consistently renamed to registered ones (claimLogicCheck), provided the
+	// renamed pair still collides on the real ClaimHash
+	for _, col := range r.found {
+		r.out.Count("keeper:replayed-collision")
+		allPositions(col.k, col.what, col.a, col.b)
+		if a2, b2, ok := e.renameMembers(col.k, col.a, col.b, true); ok {
+			r.out.Count("keeper:replayed-collision:renamed")
+			allPositions(col.k, col.what+", members renamed to registered oracles", a2, b2)
+		}
+	}
+
+	// 2. the recorded witnesses of the pinned commit
+	ethA, ethB := helpers.GenExternalAddr(keeperChain), helpers.GenExternalAddr(keeperChain)
+	tok := helpers.GenExternalAddr(keeperChain)
+	bech := sdk.AccAddress(e.oracles[0]).String()
+	next := e.k.GetLastObservedEventNonce(e.s.Ctx) + 1
+	call := func(memo, origin string) claim {
+		return &ct.MsgBridgeCallClaim{ChainName: keeperChain, BridgerAddress: bech, EventNonce: next, BlockHeight: 1000, Sender: ethA, Refund: ethA, To: ethA,
+			TokenContracts: []string{}, Amounts: []sdkmath.Int{}, Data: "", Value: sdkmath.ZeroInt(), Memo: memo, TxOrigin: origin}
+	}
+	token := func(name, symbol string) claim {
+		return &ct.MsgBridgeTokenClaim{EventNonce: next, BlockHeight: 1000, TokenContract: tok, Name: name, Symbol: symbol, Decimals: 18, BridgerAddress: bech, ChainName: keeperChain}
+	}
+	result := func(origin string) claim {
+		return &ct.MsgBridgeCallResultClaim{ChainName: keeperChain, BridgerAddress: bech, EventNonce: next, BlockHeight: 1000, Nonce: 77, TxOrigin: origin, Success: true}
+	}
+	send := func(amount int64, target string) claim {
+		return &ct.MsgSendToFxClaim{EventNonce: next, BlockHeight: 1000, TokenContract: tok, Amount: sdkmath.NewInt(amount), Sender: ethA,
+			Receiver: bech, TargetIbc: hex.EncodeToString([]byte(target)), BridgerAddress: bech, ChainName: keeperChain}
+	}
+	sendCallTo := hex.EncodeToString(ct.MemoSendCallTo.Bytes())
+	fixed := []struct {
+		what string
+		k    *kind
+		m, d claim
+	}{
+		{"the split of Name/Symbol", ks["bt"], token("A", "FX/FX"), token("A/FX", "FX")},
+		{"Memo", ks["bc"], call("", ethA), call(sendCallTo, ethA)},
+		{"TxOrigin", ks["bc"], call("", ethA), call("", ethB)},
+		{"TxOrigin", ks["bcr"], result(ethA), result(ethB)},
+		{"Amount", ks["stf"], send(5, ""), send(6, "")},
+		{"TargetIbc", ks["stf"], send(5, "px/transfer/channel-0"), send(5, "erc20")},
+	}
+	for _, sc := range fixed {
+		allPositions(sc.k, sc.what, sc.m, sc.d)
+	}
+	// 2b. the corpus pairs that are valid (oracle-set members renamed to registered oracles)
+	for _, p := range r.corpus {
+		a, b := p.a, p.b
+		if a2, b2, ok := e.renameMembers(p.k, a, b, false); ok {
+			a, b = a2, b2
+		}
+		if verdict(a) != "ok" || verdict(b) != "ok" || a.GetEventNonce() != b.GetEventNonce() {
+			continue
+		}
+		r.out.Count("keeper:corpus:" + p.k.tag)
+		allPositions(p.k, p.what, a, b)
+	}
+
+	// 3. generated disagreements: single-field variants and perturbation variants of keeper-acceptable claims
+	nGen := hx.N(24, 200)
+	for _, tag := range []string{"stf", "bc", "bcr", "ste", "bt", "osu"} {
+		k := ks[tag]
+		for i := 0; i < nGen; i++ {
+			base := k.base(kg, keeperChain)
+			if verdict(base) != "ok" {
+				continue
+			}
+			if m, ok := base.(*ct.MsgOracleSetUpdatedClaim); ok && g.rng.Intn(3) != 0 {
+				m.OracleSetNonce = 0 // the members of oracle set 0 are taken from the claim as they are
+			}
+			// a deviating claim: one field changed, or one perturbation of one part
+			var d claim
+			what := ""
+			if g.rng.Intn(2) == 0 {
+				f := hx.Pick(g.rng, k.fields)
+				if !f.effect {
+					continue
+				}
+				d = k.clone(base)
+				f.mutate(kg, d, keeperChain)
+				what = f.name
+			} else {
+				d, what = pickPerturbed(kg, k, base)
+			}
+			if d == nil || verdict(d) != "ok" || k.effect(d) == k.effect(base) || d.GetEventNonce() != base.GetEventNonce() {
+				r.out.Count("keeper:generated:skipped")
+				continue
+			}
+			r.out.Count("keeper:generated:" + tag)
+			order := orders(g, n)
+			dev := []int{order[g.rng.Intn(n)]}
+			if g.rng.Intn(4) == 0 {
+				dev = append(dev, order[g.rng.Intn(n)])
+			}
+			if g.rng.Intn(5) == 0 {
+				// an oracle tries to vote a second time (rejected: its nonce is no longer contiguous)
+				order = append(order[:2:2], append([]int{order[0]}, order[2:]...)...)
+			}
+			disagree(k, what, base, d, dev, order)
+		}
+	}
+}
+
+// pickPerturbed: a random valid perturbation variant of base with a different effect (nil if the draw is not valid)
+func pickPerturbed(g *gen, k *kind, base claim) (claim, string) {
+	v := k.clone(base)
+	switch g.rng.Intn(4) {
+	case 3:
+		if lv := listVariants(k, base); len(lv) > 0 {
+			p := hx.Pick(g.rng, lv)
+			return p.val, p.how
+		}
+		return nil, ""
+	case 0:
+		refs := strRefs(v)
+		if len(refs) == 0 {
+			return nil, ""
+		}
+		ref := hx.Pick(g.rng, refs)
+		ps := strPerturb(g, ref.get(v))
+		g.rng.Shuffle(len(ps), func(i, j int) { ps[i], ps[j] = ps[j], ps[i] })
+		for _, p := range ps {
+			w := k.clone(base)
+			ref.set(w, p.val)
+			if verdict(w) == "ok" && k.effect(w) != k.effect(base) {
+				return w, baseName(ref.name) + " (" + p.how + ")"
+			}
+		}
+	case 1:
+		refs := intRefs(v)
+		if len(refs) == 0 {
+			return nil, ""
+		}
+		ref := hx.Pick(g.rng, refs)
+		ps := intPerturb(g, ref.get(v))
+		p := hx.Pick(g.rng, ps)
+		ref.set(v, p.val)
+		return v, baseName(ref.name) + " (" + p.how + ")"
+	default:
+		refs := u64Refs(v)
+		var ok []u64Ref
+		for _, r := range refs {
+			if r.name != "EventNonce" {
+				ok = append(ok, r)
+			}
+		}
+		if len(ok) == 0 {
+			return nil, ""
+		}
+		ref := hx.Pick(g.rng, ok)
+		ps := u64Perturb(ref.get(v))
+		p := hx.Pick(g.rng, ps)
+		ref.set(v, p.val)
+		return v, baseName(ref.name) + " (" + p.how + ")"
+	}
+	return nil, ""
 }
